@@ -137,7 +137,18 @@ impl RateLoader {
     ) -> Result<Option<DailyRate>, SError> {
         let year = trade_date.year() as u32;
 
-        if !self.year_rates.contains_key(&year) {
+        let needs_load = match self.year_rates.get(&year) {
+            None => true,
+            // Rates taken from an older cache may end before trade_date. That is
+            // the same stale-cache case as on the first lookup of the year, so
+            // load again (at most once: a downloaded year is fresh).
+            Some(rates) => {
+                !rates.contains_key(&trade_date)
+                    && trade_date < today_local()
+                    && !self.fresh_loaded_years.contains(&year)
+            }
+        };
+        if needs_load {
             debug!("RateLoader::get_exact_usd_cad_rate {} not yet loaded", year);
             let rates = self.fetch_usd_cad_rates_for_date_year(&trade_date).await?;
             self.year_rates.insert(year, rates);
